@@ -126,8 +126,8 @@ _HANDLERS: tp.Mapping[
     # Short-circuit forward refs
     inspection.isforwardref: DelayedMarshaller,
     inspection.isunresolvable: routines.NoOpMarshaller,
-    # Callables (incl. `type[...]`) can't be (un)marshalled, pass them through.
-    (lambda t: inspection.origin(t) is tp.Callable): routines.NoOpMarshaller,
+    # Callables and classes (`type[...]`) can't be (un)marshalled, pass them through.
+    (lambda t: inspection.origin(t) in (tp.Callable, type)): routines.NoOpMarshaller,
     inspection.isnonetype: routines.NoneTypeMarshaller,
     # Special handler for Literals
     inspection.isliteral: routines.LiteralMarshaller,
